@@ -4,7 +4,7 @@
 From Coq Require Import List NArith Bool Arith Sorted.
 From Coq Require Import Strings.Byte.
 Require Import BS.Bytes BS.Common BS.Api BS.Layout BS.Format BS.FormatFacts BS.Spec BS.SpecStep.
-Require Import BS.FS BS.FSFacts BS.Meta BS.MetaFacts BS.Header BS.Reader BS.ReaderFacts BS.Index BS.Data BS.DataFacts BS.Seek BS.Series BS.SeriesFacts BS.ExtractFacts.
+Require Import BS.FS BS.FSFacts BS.Meta BS.MetaFacts BS.Header BS.Reader BS.ReaderFacts BS.Index BS.Data BS.DataFacts BS.Seek BS.Series BS.SeriesFacts BS.ExtractFacts BS.OpenFacts BS.HistoryFacts.
 Import ListNotations.
 
 (* (F) the sections of an encoding are exactly the sections the writer opened, at their offsets *)
@@ -45,3 +45,18 @@ Theorem C06_chunked_scan_is_one_pass : forall p (n chunkn:nat) (region:list byte
   = Ok (acc ++ map (to_entry p) (fst (meta_scan p g st [] (chunks (p + 2) (firstn to_read (skipn pos region)))))).
 Proof. exact extract_loop_is_scan. Qed.
 Print Assumptions C06_chunked_scan_is_one_pass.
+
+(* (I refines S) over EVERY history (appends accepted or refused, reads, close-and-reopen steps, crashes that cut the data file
+   at any byte and leave the index absent or cut at any byte, each followed by an open; props/C05.v): after the history the
+   index file lists exactly one entry per full-timestamp section of the data file, whatever the index file went through *)
+Theorem C06_every_history : forall p name uhdr,
+  (len (params_to_text BSgen.Consts.version (N.of_nat p) ++ uhdr) <= 65535)%N -> (N.of_nat p < 2^64)%N ->
+  forall fs cb0 ops,
+  fs_mem fs (name ++ ext_data) = false -> fs_mem fs (name ++ ext_index) = false -> hvalid_all p name uhdr [] ops ->
+  exists fs0 s0 st', series_new name (N.of_nat p) uhdr [] cb0 fs = (fs0, Ok s0)
+    /\ hrun name (fs0, s0) ops = Some st'
+    /\ let l := fold_left (hspec p) ops [] in
+       fs_get (fst st') (name ++ ext_data) = Some (outer (params_to_text BSgen.Consts.version (N.of_nat p) ++ uhdr) ++ encode p l)
+       /\ fs_get (fst st') (name ++ ext_index) = Some (outer [] ++ enc_index (sections p (encode p l))).
+Proof. exact history_files. Qed.
+Print Assumptions C06_every_history.
